@@ -78,10 +78,18 @@ def run(tier, seed):
                             "flush() must return (watchdog) and free + live blocks = data area (RetireSettled)",
         "settle_ms": SETTLE_MS, "shard_counts": [c // 2 for c in shard_cpus],
     }
+    # story: a fresh key is deleted while the write-behind worker has its first write in hand
+    import seqengine as _sq
+    _sv, _sn, _sst = _sq.run_stories(PROP, fxv, rd, "inflightstory", 2 if tier == "quick" else 10,
+                                     "an accepted delete never reached the device")
+    viol = viol + _sv
     return {"level": "model_checking", "coverage": cov, "violations": viol,
             "assumptions": ["wall-clock bound of 3 s against a documented 100 ms interval (30x margin)",
                             "shard/worker count controlled through sched_setaffinity"]}
 
 
 def replay(path):
+    import seqengine as _sq
+    if _sq.is_story(path):
+        return _sq.replay_story(PROP, path)
     return ce.replay(PROP, path, INV)
